@@ -83,6 +83,14 @@ def ls4(F, R):
                         kinds = {d[0] for d in fn.defs().get(st[1], [])}
                         if "addrmut" in kinds or "partial" in kinds:
                             problems.append("the block-range start `%s` is advanced in place (+=) instead of being recomputed from the FAT" % (st[2] or "_%d" % st[1]))
+                        # loop-carried start: it must be recomputed whenever the walk moves to another cluster
+                        defblocks = [d[1] for d in fn.defs().get(st[1], []) if d[0] in ("assign", "call")]
+                        # paths that end the walk (cursor := None) never reach another round
+                        defblocks += [bb for bb, ii, ss in fn.stmts() if ss["k"] == "Assign" and ss["rv"]["k"] == "Aggregate"
+                                      and ss["rv"].get("variant_name") == "None" and "ClusterId" in fn.locals[ss["p"]["l"]]["ty"]]
+                        for b, t in ncs:
+                            if b3 in fn.reach_after(b, cut_blocks=defblocks):
+                                problems.append("after next_cluster the walk can reach the next round's block range without recomputing its start `%s` (stale block numbers for the new cluster)" % (st[2] or "_%d" % st[1]))
                         for d in var_def_terms(fn, st[1]):
                             okd = (d[0] == "call" and d[1] and (path_matches(d[1], "FatVolume::cluster_to_block")))
                             okd = okd or tmatch(d, ("call", "Add::add", [("place", ("arg", "self"), ("*", "lba_start")), "_"])) is not None
@@ -606,3 +614,133 @@ def wr1(F, R):
     ul = [(b, t) for b, t in fn.calls() if call_matches(t, ("FileInfo::update_length",))]
     okl = len(ul) == 1 and sk and tstr(fn.term_of_operand(ul[0][1]["args"][1], ul[0][0])) == tstr(fn.term_of_operand(sk[0][1]["args"][1], sk[0][0]))
     R.require(okl, fn, "length=new_offset", "the recorded length must become the new offset when the file grows", fn.loc(0))
+
+
+def alternatives(fn, t, limit=16):
+    """Expand multi-definition locals occurring in `t` into their defining terms: [(term, [def blocks])]."""
+    from .mir import subterms
+    out = [(t, [])]
+    for _round in range(3):
+        nxt = []
+        changed = False
+        for (x, blks) in out:
+            vs = [q for q in subterms(x) if q[0] == "var"]
+            if not vs:
+                nxt.append((x, blks))
+                continue
+            v = vs[0]
+            ds = fn.defs().get(v[1], [])
+            if not ds:
+                nxt.append((x, blks))
+                continue
+            changed = True
+            for d in ds:
+                dt = fn.term_of_rvalue(d[3], d[1]) if d[0] == "assign" else fn.call_term(d[2], d[1])
+                nxt.append((subst(x, v, dt), blks + [d[1]]))
+        out = nxt[:limit]
+        if not changed:
+            break
+    return out
+
+
+def subst(t, v, r):
+    if t == v:
+        return r
+    if not isinstance(t, tuple):
+        return t
+    return tuple(subst(x, v, r) if isinstance(x, tuple) else x for x in t)
+
+
+def self_field(*proj):
+    return ("place", ("arg", 1, "self"), ("*",) + proj)
+
+
+@rule("CB1", ["C04", "C01", "C06"], floor=4,
+      doc="cluster_to_block (compared as polynomials, see analysis/poly.py): FAT16 root -> lba_start + first_root_dir_block, FAT16 cluster c -> lba_start + first_data_block + (c-2)*blocks_per_cluster; FAT32 root -> first_root_dir_cluster, cluster n -> lba_start + first_data_block + (n-2)*blocks_per_cluster; the root alternative is selected by cluster == ROOT_DIR; BlockIdx::range(n) yields start, start+1, .. start+n-1 (end exclusive)")
+def cb1(F, R):
+    from .poly import peq, ADD, SUB, MUL, C, show
+    fn = F.fn(FATVOL + "::cluster_to_block")
+    arms = fat_arms(fn)
+    alts = {"Fat16": [], "Fat32": []}
+    for d in fn.defs().get(0, []):
+        b = d[1]
+        arm = "Fat16" if b in arms["Fat16"] else ("Fat32" if b in arms["Fat32"] else None)
+        t = fn.term_of_rvalue(d[3], b) if d[0] == "assign" else fn.call_term(d[2], b)
+        if arm is None:
+            R.bad(fn, "arm", "a return value of cluster_to_block is computed outside the FAT16/FAT32 arms", fn.loc(b))
+            continue
+        for (x, blks) in alternatives(fn, t):
+            alts[arm].append((x, [b] + blks))
+    bpc = self_field("blocks_per_cluster")
+    lba = self_field("lba_start")
+    fdb = self_field("first_data_block")
+    cl = ("arg", 2, "cluster")
+    def is_root(g):
+        if g.kind == "value" and g.value == 0xFFFFFFFC and "cluster" in tstr(g.term):
+            return True
+        if g.kind == "bool" and g.truth and g.term[0] == "cmp" and g.term[1] == "Eq":
+            ab = [tstr(g.term[2]), tstr(g.term[3])]
+            return any(x.startswith("cluster") for x in ab) and any("ROOT_DIR" in x or x in ("4294967292", "0xfffffffc") for x in ab)
+        return False
+
+    def classify_alts(arm, root_formula, data_formula):
+        got = {"root": 0, "data": 0, "other": []}
+        for (x, blks) in alts[arm]:
+            if peq(x, root_formula):
+                g = any(guarded(fn, bb, is_root)[0] for bb in blks)
+                if g:
+                    got["root"] += 1
+                else:
+                    got["other"].append("root-directory formula used without the cluster == ROOT_DIR test")
+            elif peq(x, data_formula):
+                if any(guarded(fn, bb, is_root)[0] for bb in blks):
+                    got["other"].append("data-cluster formula used for ROOT_DIR")
+                else:
+                    got["data"] += 1
+            else:
+                got["other"].append(show(x))
+        return got
+
+    g16 = classify_alts("Fat16", ADD(lba, self_field("fat_specific_info", "as:Fat16", "0", "first_root_dir_block")),
+                        ADD(lba, ADD(fdb, MUL(SUB(cl, C(2)), bpc))))
+    R.require(g16["root"] >= 1 and g16["data"] >= 1 and not g16["other"], fn, "fat16",
+              "FAT16 mapping must be lba_start + (cluster == ROOT_DIR ? first_root_dir_block : first_data_block + (c-2)*blocks_per_cluster); unexpected: %s" % (g16["other"] or "missing alternative"), fn.loc(0))
+    g32 = classify_alts("Fat32", ADD(lba, ADD(fdb, MUL(SUB(self_field("fat_specific_info", "as:Fat32", "0", "first_root_dir_cluster"), C(2)), bpc))),
+                        ADD(lba, ADD(fdb, MUL(SUB(cl, C(2)), bpc))))
+    R.require(g32["root"] >= 1 and g32["data"] >= 1 and not g32["other"], fn, "fat32",
+              "FAT32 mapping must be lba_start + first_data_block + (n-2)*blocks_per_cluster with n = (cluster == ROOT_DIR ? first_root_dir_cluster : cluster); unexpected: %s" % (g32["other"] or "missing alternative"), fn.loc(0))
+    rg = F.fn("blockdevice::BlockIdx::range")
+    calls = [rg.call_term(t, b) for b, t in rg.calls()]
+    okr = any(tmatch(c, ("call", "BlockIter::new", [("arg", "self"), ("call", "Add::add", [("arg", "self"), ("agg", "BlockCount", [("place", ("arg", "num"), ("0",))])])])) is not None for c in calls)
+    R.require(okr, rg, "range", "BlockIdx::range(num) must iterate from self to self + num", rg.loc(0))
+    nx = [f for f in F.fns if f.npath.endswith("BlockIter as core::iter::Iterator>::next")]
+    okn = False
+    if nx:
+        f = nx[0]
+        somes = [(b, i) for b, i, s in f.stmts() if s["k"] == "Assign" and s["p"]["l"] == 0 and (lambda v: v[0] == "agg" and v[2] and v[2].endswith("Option::Some"))(f.term_of_rvalue(s["rv"], b))]
+        okn = len(somes) == 1 and guarded(f, somes[0][0], g_cmp("Ge", False, lambda a: "current" in tstr(a), lambda z: "inclusive_end" in tstr(z)))[0]
+        adds = [t for b, t in f.calls() if (callee_of(t) or "").endswith("AddAssign::add_assign")]
+        okn = okn and len(adds) == 1 and tstr(f.term_of_operand(adds[0]["args"][1], 0)) in ("BlockCount{1}",)
+    R.require(okn, None, "iter-next", "BlockIter::next must yield current and advance by one exactly while current < end (end exclusive)")
+
+
+@rule("FI1", ["C01"], floor=3,
+      doc="FileInfo queries: eof() is current_offset == entry.size, left() is entry.size - current_offset, length() is entry.size; update_length stores the new size")
+def fi1(F, R):
+    def ret(fn):
+        r = [fn.term_of_rvalue(s["rv"], b) for b, i, s in fn.stmts() if s["k"] == "Assign" and s["p"]["l"] == 0 and not s["p"]["proj"]]
+        return r[0] if len(r) == 1 else None
+    off = ("place", ("arg", "self"), ("*", "current_offset"))
+    size = ("place", ("arg", "self"), ("*", "entry", "size"))
+    f = F.fn("FileInfo::eof")
+    t = ret(f)
+    R.require(t is not None and (tmatch(t, ("bin", "Eq", off, size)) is not None or tmatch(t, ("bin", "Eq", size, off)) is not None), f, "eof", "eof() must be current_offset == size, got %s" % (tstr(t) if t else None), f.loc(0))
+    f = F.fn("FileInfo::left")
+    t = ret(f)
+    R.require(t is not None and tmatch(t, ("bin", "Sub", size, off)) is not None, f, "left", "left() must be size - current_offset, got %s" % (tstr(t) if t else None), f.loc(0))
+    f = F.fn("FileInfo::length")
+    t = ret(f)
+    R.require(t is not None and tmatch(t, size) is not None, f, "length", "length() must be entry.size", f.loc(0))
+    f = F.fn("FileInfo::update_length")
+    st = [(f.place_str(s["p"]), tstr(f.term_of_rvalue(s["rv"], b))) for b, i, s in f.stmts() if s["k"] == "Assign" and s["p"]["proj"]]
+    R.require(st == [("(*self).entry.size", "new")], f, "update_length", "update_length must store exactly entry.size = new, got %s" % st, f.loc(0))
